@@ -1,7 +1,8 @@
 """Plug-in extractor for C13: where the advertised task counts and the task iterables come from.
 
     general_blockwise: num_tasks = math.prod(len(c) for c in X) and mappable = ChunkKeys(Y) (unless output_blocks given): X, Y
-    _store_array (region): the num_tasks= and output_blocks= arguments of its general_blockwise call
+    _store_array (region): the num_tasks= and output_blocks= arguments of its general_blockwise call, and the rechunk of the
+        source to the target's chunks inserted before it (repository commit ba97b91)
     fuse / fuse_multiple: the fused op keeps the successor's mappable and num_tasks
     create_zarr_arrays: num_tasks = len(L) and the pipeline's mappable is L
     FinalizedPlan._calculate_stats: _num_tasks accumulates primitive_op.num_tasks
@@ -91,6 +92,19 @@ def facts(repo):
         raise ExtractError(f"{rel}: region call of general_blockwise not found in _store_array")
     put("regionCountSource", "String", lean_str(_kw(calls[0], "num_tasks") or "none"), rel + ":_store_array")
     put("regionBlocksSource", "String", lean_str(_src(_assign_value(fn, "output_blocks", rel))), rel + ":_store_array")
+    # the source is rechunked to the target's chunks (clipped to the source shape) before it is counted
+    rech = False
+    for node in ast.walk(fn):
+        if isinstance(node, ast.If) and "source.chunksize != region_chunksize" in _src(node.test) \
+                and any(_src(b).strip() == "source = source.rechunk(region_chunksize)" for b in node.body) \
+                and node.lineno < calls[0].lineno:
+            rech = True
+    try:
+        rc = _src(_assign_value(fn, "region_chunksize", rel))
+    except ExtractError:
+        rc = "none"
+    put("regionRechunksSource", "Bool", "true" if rech else "false", rel + ":_store_array")
+    put("regionChunksizeSource", "String", lean_str(rc), rel + ":_store_array")
 
     rel = "cubed/core/plan.py"
     t = _parse(repo, rel)
